@@ -163,6 +163,12 @@ pub struct HsCfg {
     /// peer's (snow accepts a superfluous `remote_public_key`): it must be reported until the message carrying the
     /// real one has been read successfully, and a failed read must not replace it
     pub wrong_rs: bool,
+    /// how the psks reach the two handshake states: 0 = `Builder::psk` (both), 1 = `HandshakeState::set_psk` right
+    /// after build (both; the builder gets none), 2 = initiator late / responder builder, 3 = the other way round
+    pub psk_via: u8,
+    /// additionally supply, through the builder, a psk in a slot no token of the instance uses (snow accepts it;
+    /// it must not influence a single byte)
+    pub extra_psk: bool,
     pub seed: u64,
 }
 
@@ -304,12 +310,22 @@ pub fn run_hs(cfg: &HsCfg, sc: &mut Sc) -> HsTrace {
             inst.msgs.get(*k).and_then(|m| m.iter().find_map(|t| if let Tok::Psk(n) = t { Some((*k, *n)) } else { None }))
         })
         .collect();
-    let psk_list = |skip: &[(usize, u8)], _for_initiator: bool| -> Vec<(u8, Vec<u8>)> {
-        cfg.psks
-            .iter()
-            .filter(|n| !skip.iter().any(|(_, m)| m == *n))
-            .map(|n| (*n, keys.psk[*n as usize].clone()))
-            .collect()
+    let late = |for_initiator: bool| -> bool { cfg.psk_via == 1 || (cfg.psk_via == 2 && for_initiator) || (cfg.psk_via == 3 && !for_initiator) };
+    let unused_slot: Option<u8> = if cfg.extra_psk { (0u8..10).rev().find(|n| !cfg.psks.contains(n)) } else { None };
+    let psk_list = |skip: &[(usize, u8)], for_initiator: bool| -> Vec<(u8, Vec<u8>)> {
+        let mut v: Vec<(u8, Vec<u8>)> = if late(for_initiator) {
+            vec![]
+        } else {
+            cfg.psks
+                .iter()
+                .filter(|n| !skip.iter().any(|(_, m)| m == *n))
+                .map(|n| (*n, keys.psk[*n as usize].clone()))
+                .collect()
+        };
+        if let Some(u) = unused_slot {
+            v.push((u, keys.psk[u as usize].clone()));
+        }
+        v
     };
     let spec_i = BuildSpec {
         name: name.clone(),
@@ -343,6 +359,22 @@ pub fn run_hs(cfg: &HsCfg, sc: &mut Sc) -> HsTrace {
         return tr;
     }
     tr.built = true;
+    // psks bound late, through HandshakeState::set_psk (the documented way for psks only known after build)
+    for (sid, ini) in [(1u32, true), (2u32, false)] {
+        if late(ini) {
+            sc.count("hs.psk_set_late");
+            for n in cfg.psks.iter().filter(|n| !missing.iter().any(|(_, m)| m == *n)) {
+                let o = sc.ex.set_psk(sid, *n as usize, &keys.psk[*n as usize]);
+                sc.check_panic(&o, "set_psk");
+                if !o.is_ok() {
+                    sc.viol("C12", format!("{name}: set_psk({n}) right after build failed: {o:?}"));
+                }
+            }
+        }
+    }
+    if unused_slot.is_some() {
+        sc.count("hs.extra_unused_psk");
+    }
     let nmsgs = inst.msgs.len();
     // the remote static each side must report
     let mut s_known_i: Option<Vec<u8>> = if role_preknows_rs(&inst, true) { Some(keys.pub_r.clone()) } else if cfg.wrong_rs { Some(keys.pub_x.clone()) } else { None };
@@ -512,7 +544,11 @@ pub fn run_hs(cfg: &HsCfg, sc: &mut Sc) -> HsTrace {
                 Fault::ReadTamper(t) => {
                     sc.count("fault.read_tamper");
                     let alt = tamper_msg(&msg, t, fields, pub_len, plen, tr.msgs.last(), &mut r);
-                    let o = sc.ex.hs_read(rd, &alt, 70000);
+                    // the payload buffer the altered message is read into: generous, exactly the genuine payload's size,
+                    // a few bytes more, the altered message's size (an implementation that cuts the input to fit the
+                    // buffer would drop appended bytes exactly when the buffer is tight)
+                    let tcap = [70000usize, plen, 70000, plen + 1, plen + 15, plen + 16, alt.len(), plen][r.below(8)];
+                    let o = sc.ex.hs_read(rd, &alt, tcap);
                     sc.check_panic(&o, "hs_read tampered");
                     let hits_enc = tamper_hits_encrypted(&msg, &alt, fields, pub_len, plen);
                     if hits_enc {
